@@ -55,6 +55,7 @@ def run(ck, tier):
         ck.count("pairs_bpm256_%s" % v, s["n256"])
         ck.count("pairs_pattern_over_1024_cap", s["capped"])
         ck.count("pairs_with_nonzero_distance", s["dist_nonzero"])
+        ck.count("pairs_checked_before_set_broadcast_mask", s.get("before_mask", 0))
         for i, x in enumerate(s["per_blocks"]):
             per_blocks[i] += x
         if label.startswith("rand-"):
